@@ -135,4 +135,5 @@ Proof.
   - intros n s ins p _. unfold exec_basic. destruct (dget dag_ft (n_fn n)); [|discriminate].
     destruct (n_kind n); try discriminate.
     destruct (eval_fexp f (n_ndata n) ins); try discriminate. destruct (wrap_outputs n v); discriminate.
+  - intros n H. destruct (Hn n H) as [-> | [-> | [-> | ->]]]; reflexivity.
 Qed.
